@@ -102,6 +102,63 @@ def sigdecode_der(sig_der: bytes, use_broken_open_ssl_mechanism: bool = True) ->
     return r, s
 
 
+def _lax_integer(sig: bytes, pos: int) -> tuple[int, int, int]:
+    # returns (position of the number, its length, position after it)
+    size = len(sig)
+    if pos == size or sig[pos] != 0x02:
+        raise UnexpectedDER("did not get expected integer 0x02")
+    pos += 1
+    if pos == size:
+        raise UnexpectedDER("ran out of bytes where a length was expected")
+    lenbyte = sig[pos]
+    pos += 1
+    if lenbyte & 0x80:
+        lenbyte -= 0x80
+        if lenbyte > size - pos:
+            raise UnexpectedDER("ran out of length bytes")
+        while lenbyte > 0 and sig[pos] == 0:
+            pos += 1
+            lenbyte -= 1
+        if lenbyte >= 4:
+            raise UnexpectedDER("length too long")
+        length = int.from_bytes(sig[pos : pos + lenbyte], "big")
+        pos += lenbyte
+    else:
+        length = lenbyte
+    if length > size - pos:
+        raise UnexpectedDER("ran out of integer bytes")
+    return pos, length, pos + length
+
+
+def sigdecode_der_lax(sig_der: bytes) -> tuple[int, int]:
+    """
+    Parse a signature the way Bitcoin consensus does when strict DER is not required
+    (the "lax" parser of Bitcoin Core, which reproduces what old OpenSSL versions accepted):
+    the length of the sequence is ignored, integers are read as unsigned whatever their
+    top bit, leading zeros and anything after S are ignored.
+    Values that do not fit in 32 bytes are returned as they are (they verify against nothing).
+    """
+    size = len(sig_der)
+    pos = 0
+    if pos == size or sig_der[pos] != 0x30:
+        raise UnexpectedDER("wanted sequence (0x30)")
+    pos += 1
+    if pos == size:
+        raise UnexpectedDER("ran out of bytes where a length was expected")
+    lenbyte = sig_der[pos]
+    pos += 1
+    if lenbyte & 0x80:
+        lenbyte -= 0x80
+        if lenbyte > size - pos:
+            raise UnexpectedDER("ran out of length bytes")
+        pos += lenbyte
+    rpos, rlen, pos = _lax_integer(sig_der, pos)
+    spos, slen, pos = _lax_integer(sig_der, pos)
+    r = int.from_bytes(sig_der[rpos : rpos + rlen], "big")
+    s = int.from_bytes(sig_der[spos : spos + slen], "big")
+    return r, s
+
+
 """
 Adapted from python-ecdsa at https://github.com/warner/python-ecdsa
 Copyright (c) 2010 Brian Warner
